@@ -155,7 +155,11 @@ func (c *checkCtx) check() int {
 	if c.Tier == "thorough" {
 		timeout = 5 * time.Hour
 	}
-	bt := runBatch(c.bin(), c.baseJob(), total, c.Plan.Procs, c.Scratch, "main", timeout)
+	refBin := ""
+	if c.Plan.Race {
+		refBin = c.Build.Worker
+	}
+	bt := runBatch(c.bin(), refBin, c.baseJob(), total, c.Plan.Procs, c.Scratch, "main", timeout)
 	fmt.Printf("gcsim: %d runs in %.1fs on %d workers (%d restarts)\n", len(bt.Results), bt.WallS, bt.WorkersN, bt.Restarts)
 	if len(bt.Harness) > 0 {
 		for _, h := range bt.Harness {
@@ -282,22 +286,50 @@ func (c *checkCtx) crossProcess(bt *batch) *xprocResult {
 		gmp int
 		wo  *workerOutcome
 	}
-	ch := make(chan res, 4)
-	gmps := []int{1, 16, 4}
-	for _, g := range gmps {
-		go func(g int) {
-			job := c.baseJob()
-			job.Mode = "runs"
-			job.Indices = idxs
-			ch <- res{g, runWorker(c.bin(), &job, c.Scratch, fmt.Sprintf("xproc-g%d", g), g, 40*time.Minute)}
-		}(g)
+	gmps := []int{1, 16}
+	parts := 6
+	if len(idxs) < parts {
+		parts = len(idxs)
 	}
-	for range gmps {
+	ch := make(chan res, len(gmps)*parts)
+	launched := 0
+	for _, g := range gmps {
+		for part := 0; part < parts; part++ {
+			var mine []int
+			for i := part; i < len(idxs); i += parts {
+				mine = append(mine, idxs[i])
+			}
+			if len(mine) == 0 {
+				continue
+			}
+			launched++
+			go func(g, part int, mine []int) {
+				job := c.baseJob()
+				job.Mode = "runs"
+				job.Indices = mine
+				tag := fmt.Sprintf("xproc-g%d-p%d", g, part)
+				if c.Plan.Race {
+					rj := c.baseJob()
+					rj.Mode = "ref"
+					rj.Indices = mine
+					rj.RefPath = filepath.Join(c.Scratch, tag+".ref.json")
+					ro := runWorker(c.Build.Worker, &rj, c.Scratch, tag+"-ref", g, 40*time.Minute)
+					if !ro.Finished {
+						ch <- res{g, ro}
+						return
+					}
+					job.RefPath = rj.RefPath
+				}
+				ch <- res{g, runWorker(c.bin(), &job, c.Scratch, tag, g, 40*time.Minute)}
+			}(g, part, mine)
+		}
+	}
+	for k := 0; k < launched; k++ {
 		r := <-ch
 		xr.processes++
 		if !r.wo.Finished {
 			xr.harness = fmt.Sprintf("cross-process worker (GOMAXPROCS=%d) died: exit %d: %s", r.gmp, r.wo.ExitCode, short(r.wo.Stderr, 1500))
-			return xr
+			continue
 		}
 		for _, rr := range r.wo.Results {
 			xr.compared++
